@@ -42,9 +42,32 @@ def subst_params(e, binds):
     return {k: (subst_params(v, binds) if k not in ('t', 'l') else v) for k, v in e.items()}
 
 
+def _rename_locals(e, off):
+    """copy of e with every local variable id (declarations and references) shifted by `off`: the ids of an inlined callee must not
+    collide with those of the function it is inlined into"""
+    if isinstance(e, list):
+        return [_rename_locals(x, off) for x in e]
+    if not isinstance(e, dict):
+        return e
+    out = {k: (_rename_locals(v, off) if k not in ('t', 'l') else v) for k, v in e.items()}
+    if e.get('k') == 'ref' and e.get('rk') == 'local' and isinstance(e.get('id'), int):
+        out['id'] = e['id'] + off
+    if e.get('k') == 'decl':
+        out['vars'] = [dict(v, id=(v['id'] + off) if isinstance(v.get('id'), int) else v.get('id')) for v in out.get('vars', [])]
+    return out
+
+
+def _pure(e):
+    return not any(isinstance(x, dict) and (x.get('k') in ('call', 'assign', 'lcall') or (x.get('k') == 'un' and x.get('op') in ('++', '--')))
+                   for x in walk(e))
+
+
 class CFG:
-    def __init__(self, fn):
+    def __init__(self, fn, inline_this=None):
         self.fn = fn
+        # optional: a predicate on callees; a statement `this->helper(args);` whose callee satisfies it is replaced by the helper's body
+        self.inline_this = inline_this
+        self._inlined = 0
         self.nodes = []
         self.entry = self.new('entry')
         self.exit = self.new('exit')
@@ -59,7 +82,7 @@ class CFG:
             if isinstance(x, dict) and x.get('k') == 'decl':
                 for v in x['vars']:
                     t = v.get('t') or {}
-                    if t.get('k') == 'bool' and t.get('const') and v.get('init') is not None and v.get('id') is not None:
+                    if t.get('k') == 'bool' and t.get('const') and v.get('init') is not None and v.get('id') is not None and self._readonly(v['init']):
                         self.bool_inits[v['id']] = (v['init'], v.get('l'))
         # local function objects (`auto step = [&] { ... };`): the body is inlined at every call of the closure
         self.lambdas = {}
@@ -79,6 +102,7 @@ class CFG:
             self.exit = self.new('exit')
             self.loops = []
             self._subst_uses = []
+            self._inlined = 0
             self._build(fn['body'])
             bad = self._verify_substitutions()
             if not bad:
@@ -121,6 +145,50 @@ class CFG:
                     bad.add(vid)
                     break
         return bad
+
+    def live_const_locals(self, node_id):
+        """the const-qualified scalar locals and the reference locals whose declaration dominates `node_id` and whose initialiser still has
+        the value it had at the declaration when control reaches the node (no path from the declaration to the node writes something the
+        initialiser reads, and the initialiser is read-only): [(variable, initialiser)] in declaration order.  A segment of the routine
+        that starts at the node may use `initialiser` for the variable."""
+        preds = {}
+        for n in self.nodes:
+            for (y, lab) in n.succ:
+                preds.setdefault(y, []).append(n.id)
+        out = []
+        for n in self.nodes:
+            if n.kind != 'stmt' or n.ast is None or n.ast.get('k') != 'decl' or n.id == node_id:
+                continue
+            for v in n.ast.get('vars', []):
+                t = v.get('t') or {}
+                ini = v.get('init')
+                if ini is None or v.get('id') is None or not (t.get('k') == 'ref' or t.get('const')):
+                    continue
+                if t.get('k') not in ('ref', 'int', 'bool', 'enum') or not self._readonly(ini):
+                    continue
+                # dominance: every backward path from the node meets the declaration before the entry
+                back, stack, dominated = set(), [node_id], True
+                while stack:
+                    x = stack.pop()
+                    if x in back:
+                        continue
+                    back.add(x)
+                    if x == n.id:
+                        continue
+                    if x == self.entry.id:
+                        dominated = False
+                        break
+                    stack.extend(preds.get(x, []))
+                if not dominated:
+                    continue
+                roots = self._roots(ini)
+                fwd = self.reachable(start=n.id)
+                between = (fwd & back) - {n.id}
+                if any(self.nodes[b].ast is not None and self._ast_writes(self.nodes[b].ast, roots) for b in between if b != node_id or True):
+                    continue
+                out.append((n.id, v, ini))
+        out.sort(key=lambda x: x[0])
+        return [(v, ini) for (_, v, ini) in out]
 
     def _ast_writes(self, ast, roots):
         for x in walk(ast):
@@ -192,12 +260,90 @@ class CFG:
             return None
         body = cal['body']
         stmts = body.get('body', []) if body.get('k') == 'compound' else [body]
-        if len(stmts) != 1 or stmts[0].get('k') != 'return' or stmts[0].get('e') is None:
+        expr = self._return_expr(stmts)
+        if expr is None:
             return None
         args = call.get('args', [])
         if len(args) != len(cal.get('params', [])):
             return None
-        return stmts[0]['e'], {p['id']: a for p, a in zip(cal['params'], args)}
+        return expr, {p['id']: a for p, a in zip(cal['params'], args)}
+
+    def _readonly(self, e):
+        """evaluating e changes nothing: no assignment / increment, calls only to const methods and to functions whose pointer and
+        reference parameters are all to const"""
+        for x in walk(e):
+            if not isinstance(x, dict):
+                continue
+            if x.get('k') in ('assign', 'lcall', 'lambda') or (x.get('k') == 'un' and x.get('op') in ('++', '--')):
+                return False
+            if x.get('k') == 'call':
+                cal = self.prog.callee(x, self.fn) if self.prog is not None else None
+                if cal is None:
+                    return False
+                if x.get('this') is not None and not (cal.get('const_method') or cal.get('static')):
+                    return False
+                for p in cal.get('params', []):
+                    t = p.get('t') or {}
+                    if t.get('k') in ('ptr', 'ref') and not (p.get('pointee_const') or (t.get('pointee') or {}).get('const')):
+                        return False
+        return True
+
+    def _inlinable_body(self, call, cal):
+        """the body of a helper called on `this`, ready to stand in for the call statement: locals renamed apart, parameters replaced by the
+        (side-effect free) arguments; None when the call is not to be / cannot be inlined"""
+        if cal is None or 'body' not in cal or cal is self.fn or not self.inline_this(cal):
+            return None
+        args = call.get('args', [])
+        params = cal.get('params', [])
+        if len(args) != len(params) or not all(_pure(a) for a in args):
+            return None
+        pids = {p['id'] for p in params}
+        for x in walk(cal['body']):
+            if isinstance(x, dict) and ((x.get('k') == 'assign' and _unwrap(x.get('lhs')).get('k') == 'ref' and _unwrap(x['lhs']).get('rk') == 'param'
+                                         and _unwrap(x['lhs']).get('id') in pids and (_unwrap(x['lhs']).get('t') or {}).get('k') != 'ref') or
+                                        (x.get('k') == 'un' and x.get('op') in ('++', '--') and _unwrap(x.get('e')).get('rk') == 'param')):
+                return None     # the helper modifies a by-value parameter: substitution would not be its meaning
+            if isinstance(x, dict) and x.get('k') in ('lambda',):
+                return None
+        self._inlined += 1
+        off = 100000 * self._inlined
+        body = _rename_locals(cal['body'], off)
+        body = subst_params(body, {p['id']: a for p, a in zip(params, args)})
+        for x in walk(body):
+            if isinstance(x, dict) and x.get('k') == 'decl':
+                for v in x['vars']:
+                    t = v.get('t') or {}
+                    if t.get('k') == 'bool' and t.get('const') and v.get('init') is not None and v.get('id') is not None and self._readonly(v['init']):
+                        self.bool_inits[v['id']] = (v['init'], v.get('l'))
+        return body
+
+    @classmethod
+    def _return_expr(cls, stmts):
+        """the value a statement list returns as ONE expression, when the list is a chain of `if (c) return A; [else return B;]` ending in
+        `return E;` (no other statement): c ? A : (...)"""
+        stmts = [x for x in stmts if x.get('k') != 'null']
+        if not stmts:
+            return None
+        s0 = stmts[0]
+        if s0.get('k') == 'compound':
+            return cls._return_expr(list(s0.get('body', [])) + stmts[1:])
+        if s0.get('k') == 'return':
+            return s0.get('e')
+        if s0.get('k') == 'if' and s0.get('c') is not None:
+            th = cls._return_expr([s0['then']]) if s0.get('then') is not None else None
+            if th is None:
+                return None
+            if s0.get('else') is not None:
+                el = cls._return_expr([s0['else']])
+                if el is None:
+                    # the else arm falls through to the rest
+                    return None
+            else:
+                el = cls._return_expr(stmts[1:])
+                if el is None:
+                    return None
+            return {'k': 'cond', 'c': s0['c'], 'then': th, 'else': el, 't': {'k': 'bool', 's': 'bool'}, 'l': s0.get('l')}
+        return None
 
     def new(self, kind, ast=None):
         n = Node(len(self.nodes), kind, ast)
@@ -232,6 +378,14 @@ class CFG:
         if isinstance(e, dict) and e.get('k') == 'un' and e.get('op') == '!':
             t, f = self._cond(e['e'], preds)
             return f, t
+        if isinstance(e, dict) and e.get('k') == 'cond' and (e.get('t') or {}).get('k') == 'bool':
+            # c ? A : B as a condition
+            tc, fc = self._cond(e['c'], preds)
+            ta, fa = self._cond(e['then'], tc)
+            tb, fb = self._cond(e['else'], fc)
+            return ta + tb, fa + fb
+        if isinstance(e, dict) and e.get('k') == 'lit' and 'bool' in e:
+            return (preds, []) if e['bool'] else ([], preds)
         u = _unwrap(e)
         if isinstance(u, dict) and u.get('k') == 'ref' and u.get('rk') == 'local' and u.get('id') in self.bool_inits and \
                 u.get('id') not in self._unsafe_bools and self._inline_depth < 6:
@@ -266,6 +420,22 @@ class CFG:
             for c in s['body']:
                 preds = self._stmt(c, preds, brk, cont)
             return preds
+        if k == 'expr' and self.inline_this is not None and self.prog is not None and self._inline_depth < 4:
+            e0 = _unwrap(s.get('e'))
+            if isinstance(e0, dict) and e0.get('k') == 'call' and e0.get('this') is not None and _unwrap(e0['this']).get('k') == 'this':
+                cal = self.prog.callee(e0, self.fn)
+                body = self._inlinable_body(e0, cal)
+                if body is not None:
+                    saved = self._ret_collect
+                    self._ret_collect = []
+                    self._inline_depth += 1
+                    try:
+                        out = self._stmt(body, preds, None, None)
+                        out = out + self._ret_collect
+                    finally:
+                        self._inline_depth -= 1
+                        self._ret_collect = saved
+                    return out
         if k == 'expr':
             e0 = strip(s.get('e'))
             if isinstance(e0, dict) and e0.get('k') == 'lcall':
